@@ -31,3 +31,26 @@ PROPS["C20"] = {
     "level_note": COMMON_NOTE + "net.SplitHostPort/strconv.Atoi/net.JoinHostPort are modelled, validated differentially.",
     "design_ref": "DESIGN.md section 5, C20",
 }
+
+PROPS["C15"] = {
+    "lean_modules": ["GoSup.Props.C15"],
+    "theorems": [],
+    "ties": [],
+    "legs": [{"name": "middleware", "cmd": "middleware"}],
+    "rule": "programs: committed corpus, ALL chains of <=2 (quick) / <=3 (thorough) handlers with <=2 actions over the core alphabet "
+            "{Next, Abort, WriteHeader, Write, panic, mark} plus empty and recovery handlers, and seeded random chains of 1-6 handlers "
+            "(0-6 actions each, built-in recovery/logger/metrics/state/wildcard/headers middlewares, status codes incl. 1xx/204/304/"
+            "invalid, a connection that fails after k bytes); each served by the real Route.ServeHTTP over a logging underlying writer; "
+            "3 lines per program: implementation vs execImpl, vs execSpec, and Spec.C15.holds on the observed outcome. Non-trivial = "
+            "an Abort, a recovered or escaped panic, a header actually sent, or a short write occurred; distinct by (path, program).",
+    "assumptions": [
+        "underlying writer contract = httptest.ResponseRecorder behind a call-logging wrapper (observation point of the property); "
+        "a real net/http connection differs for 1xx informational codes (see DESIGN.md C15)",
+    ],
+    "trusted_base": [],
+    "level_text": "Refinement theorem: the index-based implementation model of RequestProcessor.Next/Abort equals a reference "
+                  "interpreter over the list of not-yet-started handlers, for all chains of all lengths; writer-consistency "
+                  "invariant for all action sequences; tied to the code by differential execution of generated programs.",
+    "level_note": COMMON_NOTE + "http.ResponseWriter contract modelled after httptest.ResponseRecorder.",
+    "design_ref": "DESIGN.md section 5, C15",
+}
